@@ -238,11 +238,34 @@ def emit_bv(assertions, values=(), logic=None, produce_models=True):
     return "\n".join(lines) + "\n"
 
 
-def emit_int(assertions, values=(), logic="QF_NIA"):
+def emit(kind, assertions, values=()):
+    if kind == "int":
+        return emit_int(assertions, values)
+    if kind == "intq":
+        return emit_int(assertions, values, div_abstraction=True)
+    return emit_bv(assertions, values)
+
+
+def emit_int(assertions, values=(), logic="QF_NIA", div_abstraction=False):
+    """div_abstraction: every division/remainder by a non-constant divisor is replaced by fresh quotient/remainder
+    variables q, r with  y != 0 => (x == y*q + r and 0 <= r < |y|)  (exact definition of Euclidean division; for y == 0 the
+    value is left unconstrained, which only weakens the hypotheses: division by zero is asserted as UB separately)."""
     order = T.subterms(list(assertions) + list(values))
     lines = ["(set-logic %s)" % logic, "(set-option :produce-models true)"]
     ref = {}
     n = 0
+    qr = {}
+
+    def absdiv(xs, ys, key):
+        if key not in qr:
+            i = len(qr)
+            qn, rn = "q!%d" % i, "r!%d" % i
+            lines.append("(declare-fun %s () Int)" % qn)
+            lines.append("(declare-fun %s () Int)" % rn)
+            lines.append("(assert (=> (not (= %s 0)) (and (= %s (+ (* %s %s) %s)) (<= 0 %s) (< %s (abs %s)))))" % (
+                ys, xs, ys, qn, rn, rn, rn, ys))
+            qr[key] = (qn, rn)
+        return qr[key]
 
     def sview(s, w):
         return "(ite (>= %s %d) (- %s %d) %s)" % (s, 1 << (w - 1), s, 1 << w, s)
@@ -273,6 +296,10 @@ def emit_int(assertions, values=(), logic="QF_NIA"):
         w = so[1] if isinstance(so, tuple) else None
         if op in ("bvadd", "bvsub", "bvmul"):
             e = "(mod (%s %s %s) %d)" % ({"bvadd": "+", "bvsub": "-", "bvmul": "*"}[op], a[0], a[1], 1 << w)
+        elif op in ("bvudiv", "bvurem") and div_abstraction and not T.is_const(t.args[1]):
+            qn, rn = absdiv(a[0], a[1], (a[0], a[1]))
+            ref[t.uid] = qn if op == "bvudiv" else rn
+            continue
         elif op == "bvudiv":
             e = "(ite (= %s 0) %d (div %s %s))" % (a[1], (1 << w) - 1, a[0], a[1])
         elif op == "bvurem":
@@ -349,7 +376,8 @@ def emit_int(assertions, values=(), logic="QF_NIA"):
         elif op == "ite":
             e = "(ite %s %s %s)" % tuple(a)
         elif op == "zext":
-            e = a[0]
+            ref[t.uid] = a[0]
+            continue
         elif op == "sext":
             w0 = T.width(t.args[0])
             e = "(mod %s %d)" % (sview(a[0], w0), 1 << w)
@@ -373,9 +401,14 @@ def emit_int(assertions, values=(), logic="QF_NIA"):
         elif op == "sval":
             e = sview(a[0], T.width(t.args[0]))
         elif op == "uval":
-            e = a[0]
+            ref[t.uid] = a[0]
+            continue
         elif op in ("iadd", "isub", "imul"):
             e = "(%s %s %s)" % ({"iadd": "+", "isub": "-", "imul": "*"}[op], a[0], a[1])
+        elif op in ("idiv", "imod") and div_abstraction and not T.is_const(t.args[1]):
+            qn, rn = absdiv(a[0], a[1], (a[0], a[1]))
+            ref[t.uid] = qn if op == "idiv" else rn
+            continue
         elif op == "idiv":
             e = "(div %s %s)" % (a[0], a[1])
         elif op == "imod":
